@@ -113,6 +113,7 @@ class Node:
         self.synced = 0  # number of bytes durable
         self.nlink = 1
         self.text = text  # concrete str content of a text file (config.json); None for binary files
+        self.dbrows = None  # an SQLite index file that is not live: its committed rows (copied dumps / raw copies)
 
 
 class TextWriter:
@@ -149,6 +150,15 @@ class ModelFS:
         self.open_fds = {}  # fd -> path (files, directories, fcntl duplicates)
         self.fd_counter = 0
         self.max_open = 0
+        self.clock = 0  # counts every path-level file-system call of the actor under test (observations included)
+        self.events = []  # [instant, action, fired]: effects of OTHER actors, applied when the clock reaches the instant
+
+    def observe(self):
+        self.clock += 1
+        for ev in self.events:
+            if not ev[2] and ev[0] <= self.clock:
+                ev[2] = True
+                ev[1]()
 
     def tick(self, what):
         self.step += 1
@@ -284,6 +294,7 @@ class ModelOS:
         self.fspath = _os.fspath
 
     def listdir(self, path):
+        self.fs.observe()
         path = str(path)
         if path not in self.fs.dirs:
             raise FileNotFoundError(path)
@@ -295,6 +306,7 @@ class ModelOS:
         return out
 
     def remove(self, path):
+        self.fs.observe()
         path = str(path)
         if path not in self.fs.files:
             raise FileNotFoundError(path)
@@ -304,6 +316,7 @@ class ModelOS:
     unlink = remove
 
     def rename(self, src, dst):
+        self.fs.observe()
         src, dst = str(src), str(dst)
         if src not in self.fs.files:
             raise FileNotFoundError(src)
@@ -313,6 +326,7 @@ class ModelOS:
     replace = rename
 
     def link(self, src, dst):
+        self.fs.observe()
         src, dst = str(src), str(dst)
         if dst in self.fs.files:
             raise FileExistsError(dst)
@@ -321,6 +335,7 @@ class ModelOS:
         self.fs.files[dst].nlink += 1
 
     def mkdir(self, path):
+        self.fs.observe()
         path = str(path)
         if path in self.fs.dirs:
             raise FileExistsError(path)
@@ -358,6 +373,7 @@ class ModelOS:
         self.fs.open_fds.pop(fd, None)
 
     def stat(self, path):
+        self.fs.observe()
         path = str(path)
         if path in self.fs.files:
             return StatResult(len(self.fs.files[path].data), False)
@@ -370,6 +386,7 @@ def make_open(fs):
     fs.fdtable = {}
 
     def model_open(path, mode='r', **kw):
+        fs.observe()
         path = str(path)
         if 'b' not in mode and 'x' not in mode and 'a' not in mode:
             import io as _io
@@ -568,25 +585,51 @@ class ModelDB:
         self.path = path
         self.versions = [[]]  # committed snapshots (list of row dicts)
         self.next_id = 1
+        # WAL mode: commits go to <index>-wal, which exists while some connection is open; the main file holds the
+        # version of the last checkpoint, and the last connection to close checkpoints everything
+        self.conns = 0
+        self.ckpt = 0
+
+    def connected(self):
+        self.conns += 1
+        if self.conns == 1:
+            for sfx in ('-wal', '-shm'):
+                if self.path + sfx not in self.fs.files:
+                    self.fs.files[self.path + sfx] = Node()
+
+    def disconnected(self):
+        self.conns -= 1
+        if self.conns == 0:
+            self.ckpt = len(self.versions) - 1
+            self.fs.files.pop(self.path + '-wal', None)
+            self.fs.files.pop(self.path + '-shm', None)
+
+    def main_rows(self):
+        """rows visible in the main database file alone (without its -wal)"""
+        return self.versions[self.ckpt if self.conns > 0 else -1]
 
 
 class Engine:
     """SQLAlchemy engine of one session: the SQLite connection (a descriptor on packs.idx) is opened at the first
     statement, survives ``session.close()`` in the pool, and is closed only by ``dispose()``."""
 
-    def __init__(self, fs=None, path='packs.idx'):
-        self.fs, self.path, self.fd = fs, path, None
+    def __init__(self, fs=None, path='packs.idx', db=None):
+        self.fs, self.path, self.fd, self.db = fs, path, None, db
 
     def connect(self):
         if self.fs is not None and self.fd is None:
             self.fs.fd_counter += 1
             self.fd = 7000 + self.fs.fd_counter
             self.fs.open_fds[self.fd] = self.path
+            if self.db is not None:
+                self.db.connected()
 
     def dispose(self):
         if self.fs is not None and self.fd is not None:
             self.fs.open_fds.pop(self.fd, None)
             self.fd = None
+            if self.db is not None:
+                self.db.disconnected()
 
 
 class ModelSession:
@@ -595,7 +638,7 @@ class ModelSession:
         self.snap = None  # index of pinned version
         self.rows = None  # working copy when in txn
         self.dirty = False
-        self.bind = Engine(db.fs, db.path)
+        self.bind = Engine(db.fs, db.path, db)
 
     def _begin(self):
         self.bind.connect()
@@ -919,10 +962,19 @@ def install(fs, dbs, C, U):
     def get_session(path, create=False):
         path = str(path)
         if path not in dbs:
-            if not create:
-                raise FileNotFoundError(path)
-            dbs[path] = ModelDB(fs, path)
-            fs.files[path] = Node()
+            node = fs.files.get(path)
+            if node is not None and node.dbrows is not None:
+                # an index file that was copied there (a backup): SQLite replays a valid -wal found next to it
+                wal = fs.files.get(path + '-wal')
+                rows = wal.dbrows if (wal is not None and wal.dbrows is not None) else node.dbrows
+                dbs[path] = ModelDB(fs, path)
+                dbs[path].versions = [[dict(r) for r in rows]]
+                dbs[path].next_id = 1 + max([r['id'] for r in rows] + [0])
+            else:
+                if not create:
+                    raise FileNotFoundError(path)
+                dbs[path] = ModelDB(fs, path)
+                fs.files[path] = Node()
         return ModelSession(dbs[path])
 
     C.get_session = get_session
@@ -944,13 +996,16 @@ import pathlib
 def make_path_class(fs):
     class MPath(pathlib.PurePosixPath):
         def exists(self):
+            fs.observe()
             s = str(self)
             return s in fs.files or s in fs.dirs
 
         def is_file(self):
+            fs.observe()
             return str(self) in fs.files
 
         def stat(self):
+            fs.observe()
             s = str(self)
             if s in fs.files:
                 return StatResult(len(fs.files[s].data), False)
